@@ -225,6 +225,11 @@ def check_c11(tier, seed, only=None):
             # every second invalid file violates exactly one precondition (each kind in turn), the others a random combination
             j = i // 3
             n2, toks, kinds = dimacs_gen.make_invalid(rng, n, edges, only=(j // 2) % 3 if j % 2 == 0 else None)
+            # the generator is validated against the definitions before its file is used as an oracle
+            pairs = [(min(a_, b_), max(a_, b_)) for a_, b_, c_ in toks]
+            if not (any(a_ == b_ for a_, b_ in pairs) or len(set(pairs)) < len(pairs) or any(float(c_) <= 0 for a_, b_, c_ in toks)):
+                rec.inconclusive('generator produced no precondition violation for case %d' % i)
+                return
             dimacs_gen.write_dimacs(path, n2, toks, rng, trailing_newline=rng.random() < 0.8)
             check_invalid_file(rec, demos, rng, i, path, kinds, tier, timeout, ranks)
             rec.case('inv-%d-%d' % (seed, i), True, ['invalid:' + '+'.join(kinds)], dict(kind='invalid', violations=kinds, file_head=open(path).read()[:200]))
